@@ -164,7 +164,10 @@ def handle_analyze(text):
     res["ctx"] = {str(b.idx): block_ctx(function, b) for b in function.blocks}
     dcs = detector_classes()
     paths = {}
-    for name in DETECTORS:
+    order = list(DETECTORS)
+    if os.environ.get("VERIF_DETECTOR_ORDER") == "reversed_twice":
+        order = list(reversed(DETECTORS)) + list(DETECTORS)
+    for name in order:
         try:
             det = dcs[name](tealer)
             outs, _, _ = quiet(det.detect)
@@ -174,7 +177,10 @@ def handle_analyze(text):
             paths[name] = ps
         except Exception as e:  # pylint: disable=broad-except
             paths[name] = {"err": exn(e)}
-    res["paths"] = paths
+    res["paths"] = {name: paths[name] for name in DETECTORS}
+    if os.environ.get("VERIF_DETECTOR_ORDER") == "reversed_twice":
+        # contexts read again after all detectors ran twice: must be what they were before
+        res["ctx"] = {str(b.idx): block_ctx(function, b) for b in function.blocks}
     return res
 
 
